@@ -81,7 +81,8 @@ pub enum Act {
     WrRemove(u8, WrSel),
     WrRun(u8),
     EwAdd(u8, EntRef, u32),
-    /// part: 0 = whole bundle, 1.. = single trigger index (partial removal)
+    /// part: 0 = whole bundle, 1..=2 = single trigger (partial removal), 3 = the bundles of this entity and of the
+    /// next slot's entity in one call
     EwRemove(u8, EntRef, u8),
     Poll,
     Gc,
@@ -467,7 +468,7 @@ pub fn gen_act(r: &mut Rng, p: &Profile) -> Act {
         },
         21 => match r.below(5) {
             0 | 1 | 2 => Act::EwAdd(t, gen_entref(r, p), 10 + r.below(5) as u32 * 10),
-            _ => Act::EwRemove(t, gen_entref(r, p), r.below(3) as u8),
+            _ => Act::EwRemove(t, gen_entref(r, p), r.below(4) as u8),
         },
         22 => Act::Poll,
         _ => Act::Gc,
